@@ -7,6 +7,18 @@ spec -> code : SphereMC.tla checks the lattice theorems of Sphere.tla (symmetry,
                (eps in 1e-12, 1e-9, 1e-6, 1e-3 degree) and evaluated by esutil.coords.sphdist (all
                four unit combinations) and gcirc, in both argument orders, with +-360 added to the
                longitudes, as python scalars, length-1, length-3 and long arrays.
+               SCALE (Sphere.tla 3a): the separation functions are elementwise, so a call on 2^20 +- 1 or
+               2^21 + 5 pairs that repeats a small tile of lattice pairs is decided by the tile
+               (laws GThmConcat / GThmCycle / GThmBroadcast, checked by TLC).  SphereMC exports the
+               class-cyclic tiles and the design of the large cases (length x rotation x shape x
+               function/units); each large result is compressed per tile position to the distinct
+               values it holds (with counts) and those are judged like any other evaluation, plus the
+               clause scale_complete.  The tile alone is evaluated too (a part of the law).
+               TURNS (Sphere.tla 3b): k*360 degrees / the double nearest to (lon + 360 k) in radians for
+               |k| up to 10^6, negative turns, -0.0 coordinates.  The doubles handed to the code are then
+               displaced from the lattice longitude by an exactly known amount; only the classes of pairs
+               whose separation is an exactly known function of the displacement are judged (the trace
+               module re-checks the claimed class), the tolerance applies to the angle of the ACTUAL doubles.
 code -> spec : every returned number is *projected* onto the lattice with exact Fraction / 60-digit
                decimal arithmetic (vh.spherelat) - "the lattice values within the stated tolerance
                of what came back" - and SphereTrace.tla, run by TLC, recomputes SepGC / CosSep from
@@ -16,6 +28,7 @@ Python never decides a verdict; it maps abstract <-> concrete and records.
 """
 import math
 import random
+import zlib
 from decimal import Decimal, localcontext
 from fractions import Fraction
 
@@ -29,26 +42,39 @@ from ..tlc import cfg
 
 NEEDS_EXT = True      # coords.py is pure python, but `import esutil` needs the compiled sub-packages (build is cached)
 
+TURNMAGS = {1, 7, 100, 1000, 100000, 1000000}
 BOUNDS = {
     "quick": dict(GCA={0, 1, 89, 90, 91, 95, 179, 180, 181, 270, 359}, BMax=1, MerLons={0, 95},
-                  PoleLons={0, 217}, MaxD=7, NMaskMax=4),
+                  PoleLons={0, 217}, MaxD=7, NMaskMax=4, TurnMags=TURNMAGS, NScaleMax=7, TileMax=24, Thorough=False,
+                  ScaleNs={2 ** 10 + 1, 2 ** 16 + 1, 2 ** 18 + 1, 2 ** 20 - 1, 2 ** 20, 2 ** 20 + 1, 2 ** 21 + 5}),
     "thorough": dict(GCA={0, 1, 2, 30, 45, 60, 89, 90, 91, 95, 120, 135, 150, 174, 175, 179, 180, 181, 185, 269, 270,
-                          271, 275, 359}, BMax=2, MerLons={0, 90, 95}, PoleLons={0, 217, 360}, MaxD=15, NMaskMax=5),
+                          271, 275, 359}, BMax=2, MerLons={0, 90, 95}, PoleLons={0, 217, 360}, MaxD=15, NMaskMax=5,
+                     TurnMags=TURNMAGS, NScaleMax=9, TileMax=32, Thorough=True,
+                     ScaleNs={2 ** 10 - 1, 2 ** 10, 2 ** 10 + 1, 2 ** 16 - 1, 2 ** 16, 2 ** 16 + 1, 2 ** 18 - 1, 2 ** 18,
+                              2 ** 18 + 1, 2 ** 20 - 1, 2 ** 20, 2 ** 20 + 1, 2 ** 21 - 1, 2 ** 21, 2 ** 21 + 5, 3 * 2 ** 20}),
 }
+# rows of the many-turn design evaluated per block of pairs (the rows are spread over the blocks)
+TURN_ROWS_PER_BLOCK = {"quick": 4, "thorough": 4}
+
+# eps instantiations: the four decimal ones of vh.spherelat and 2^-44 degree = 1 ulp of the doubles in
+# [256, 512): 360 - eps is the largest double below 360 and every lattice value is a double exactly
+EPS = tuple(sl.EPS) + (Fraction(1, 2 ** 44),)
+EPS_NAMES = tuple(sl.EPS_NAMES) + ("2^-44",)
 
 # tolerances of the property statement, in degrees; ALLOW covers the rounding of the lattice
 # inputs to doubles (<= 1/2 ulp(720) = 5.7e-14 degree per coordinate)
 TOL = {"sphdist": Fraction(1, 10 ** 11), "gcirc": Fraction(2, 10 ** 6)}
 ALLOW = Fraction(2, 10 ** 13)
 
-# (function, units in, units out, k1, k2, swap): k1/k2 multiples of 360 added to the first /
-# second longitude of the call, swap = arguments exchanged
-V_BASE = [("sphdist", "deg", "deg", 0, 0, 0), ("sphdist", "deg", "deg", 0, 0, 1),
-          ("gcirc", "deg", "rad", 0, 0, 0), ("gcirc", "deg", "rad", 0, 0, 1),
-          ("sphdist", "rad", "rad", 0, 0, 0)]
-V_MORE = [("sphdist", "deg", "deg", 1, 0, 0), ("sphdist", "deg", "deg", 0, -1, 0), ("sphdist", "deg", "deg", 1, 1, 1),
-          ("gcirc", "deg", "rad", 1, 0, 0), ("gcirc", "deg", "rad", -1, 1, 1),
-          ("sphdist", "rad", "deg", 0, 1, 0), ("sphdist", "deg", "rad", -1, 0, 1), ("sphdist", "rad", "rad", 1, -1, 1)]
+# (function, units in, units out, k1, k2, swap, nz): k1/k2 multiples of 360 added to the first /
+# second longitude of the call, swap = arguments exchanged, nz = every coordinate that is zero is given as -0.0
+V_BASE = [("sphdist", "deg", "deg", 0, 0, 0, 0), ("sphdist", "deg", "deg", 0, 0, 1, 0),
+          ("gcirc", "deg", "rad", 0, 0, 0, 0), ("gcirc", "deg", "rad", 0, 0, 1, 0),
+          ("sphdist", "rad", "rad", 0, 0, 0, 0)]
+V_MORE = [("sphdist", "deg", "deg", 1, 0, 0, 0), ("sphdist", "deg", "deg", 0, -1, 0, 1), ("sphdist", "deg", "deg", 1, 1, 1, 0),
+          ("gcirc", "deg", "rad", 1, 0, 0, 0), ("gcirc", "deg", "rad", -1, 1, 1, 1),
+          ("sphdist", "rad", "deg", 0, 1, 0, 1), ("sphdist", "deg", "rad", -1, 0, 1, 0), ("sphdist", "rad", "rad", 1, -1, 1, 0),
+          ("sphdist", "deg", "deg", 0, 0, 0, 1)]
 SHAPES = ("scalar", "n1", "n3", "long", "one_vs_n3", "n2x3")     # one_vs_n3: first point python floats, second point arrays;
                                                                   # n2x3: two-dimensional arrays of shape (2, 3)
 BLOCK = 240          # pairs per evaluation block = length of the "long" arrays
@@ -56,17 +82,76 @@ BLOCK = 240          # pairs per evaluation block = length of the "long" arrays
 
 # ---------------------------------------------------------------------------------
 # abstract -> concrete
+def vnorm(var):
+    """variants recorded before the nz field existed have six entries"""
+    var = tuple(var)
+    return var if len(var) >= 7 else var + (0,) * (7 - len(var))
+
+
 def pair_args(pr, var):
     """the four doubles (lon1, lat1, lon2, lat2) of one call, in the variant's input units"""
-    fn, uin, uout, k1, k2, swap = var
+    fn, uin, uout, k1, k2, swap, nz = vnorm(var)
     conv = sl.deg_float if uin == "deg" else sl.rad_float
     if pr["kind"] == "gc":
-        eps = sl.EPS[pr["eps"]]
+        eps = EPS[pr["eps"]]
         a, b = (pr["c"]["q"], pr["c"]["p"]) if swap else (pr["c"]["p"], pr["c"]["q"])
-        return (conv(sl.eangle(a["lon"], eps, k1)), conv(sl.eangle(a["lat"], eps)),
-                conv(sl.eangle(b["lon"], eps, k2)), conv(sl.eangle(b["lat"], eps)))
-    a, b = (pr["Q"], pr["P"]) if swap else (pr["P"], pr["Q"])
-    return (conv(Fraction(a[0]) + 360 * k1), conv(Fraction(a[1])), conv(Fraction(b[0]) + 360 * k2), conv(Fraction(b[1])))
+        out = (conv(sl.eangle(a["lon"], eps, k1)), conv(sl.eangle(a["lat"], eps)),
+               conv(sl.eangle(b["lon"], eps, k2)), conv(sl.eangle(b["lat"], eps)))
+    else:
+        a, b = (pr["Q"], pr["P"]) if swap else (pr["P"], pr["Q"])
+        out = (conv(Fraction(a[0]) + 360 * k1), conv(Fraction(a[1])), conv(Fraction(b[0]) + 360 * k2), conv(Fraction(b[1])))
+    if nz:
+        out = tuple(-0.0 if x == 0.0 else x for x in out)
+    return out
+
+
+# ---------------------------------------------------------------------------------
+# many turns: the doubles handed to the code are displaced from the lattice longitude (Sphere.tla 3b)
+def is_turn(var):
+    return max(abs(var[3]), abs(var[4])) > 1
+
+
+def actual_deg(x, uin):
+    """the exact angle, in degrees, that the double x denotes"""
+    return Fraction(x) if uin == "deg" else Fraction(x) * 180 / sl.PI_F
+
+
+def circsep(t1, t2):
+    """separation of two positions (exact degrees) on one circle: the shorter arc"""
+    d = (t2 - t1) % 360
+    return d if d <= 180 else 360 - d
+
+
+def turn_info(pr, var, args):
+    """(class, offset) under which this evaluation is decidable, or None.  offset = (separation of the
+    ACTUAL double inputs) - (lattice separation), exact; non-zero only in class "equator"."""
+    if not is_turn(var):
+        return ("none", 0)            # at most one turn: the rounding of the inputs is inside ALLOW
+    if pr["kind"] != "gc":
+        return None
+    fn, uin, uout, k1, k2, swap, nz = var
+    a, b = (pr["c"]["q"], pr["c"]["p"]) if swap else (pr["c"]["p"], pr["c"]["q"])
+    eps = EPS[pr["eps"]]
+    L1, L2 = sl.eangle(a["lon"], eps, k1), sl.eangle(b["lon"], eps, k2)
+    if uin == "deg" and a["lon"][1] == 0 and b["lon"][1] == 0:
+        if Fraction(args[0]) != L1 or Fraction(args[2]) != L2:
+            raise MachineryError("integer-degree longitude not exactly representable: %r" % (args,))
+        return ("exact", 0)
+    zero = [0, 0]
+    if list(a["lat"]) == zero and list(b["lat"]) == zero:
+        if args[1] != 0.0 or args[3] != 0.0:
+            raise MachineryError("equatorial latitude is not zero: %r" % (args,))
+        lat_sep = sl.eangle(pr["sep"], eps)               # SepGC as exported by the spec
+        if circsep(L1, L2) != lat_sep:
+            raise MachineryError("equatorial separation differs from the exported SepGC: %s" % (pr["c"],))
+        return ("equator", circsep(actual_deg(args[0], uin), actual_deg(args[2], uin)) - lat_sep)
+    if any(list(t["lat"]) in ([90, 0], [-90, 0]) for t in (a, b)):
+        return ("pole", 0)
+    if list(a["lon"]) == list(b["lon"]) and k1 == k2:
+        if args[0] != args[2]:
+            raise MachineryError("equal longitudes became different doubles: %r" % (args,))
+        return ("samelon", 0)
+    return None
 
 
 def call(var, A, mixed=False, twod=False):
@@ -104,10 +189,13 @@ def call(var, A, mixed=False, twod=False):
     return out[:1] if mixed else out
 
 
-def project(pr, var, err, r):
-    """one outcome -> the observation record judged by SphereTrace.tla (+ deviation for messages)"""
-    fn, uin, uout, k1, k2, swap = var
-    o = {"fn": fn, "samewrap": k1 == k2, "err": err, "fin": False, "rng": False, "zero": False, "on": False}
+def project(pr, var, err, r, tinfo=("none", 0)):
+    """one outcome -> the observation record judged by SphereTrace.tla (+ deviation for messages).
+    tinfo = (many-turn class, exactly known effect of the displacement of the inputs on the separation)"""
+    fn, uin, uout, k1, k2, swap, nz = vnorm(var)
+    tc, off = tinfo
+    o = {"fn": fn, "samewrap": k1 == k2, "err": err, "fin": False, "rng": False, "zero": False, "on": False,
+         "tc": tc, "uin": uin, "sh": bool(off != 0)}
     o.update({"a": 0, "blo": 0, "bhi": 0} if pr["kind"] == "gc" else {"dn": 0, "dd": 1})
     dev = None
     if err != "none":
@@ -120,8 +208,9 @@ def project(pr, var, err, r):
     o["zero"] = bool(r == 0.0)
     tol = TOL[fn] + ALLOW
     if pr["kind"] == "gc":
-        o["on"], o["a"], o["blo"], o["bhi"] = sl.project_gc(r_deg, sl.EPS[pr["eps"]], tol)
-        dev = abs(float(r_deg - sl.eangle(pr["sep"], sl.EPS[pr["eps"]])))
+        # |r - (lattice separation + off)| <= tol  <=>  the lattice separation is within tol of r - off
+        o["on"], o["a"], o["blo"], o["bhi"] = sl.project_gc(r_deg - off, EPS[pr["eps"]], tol)
+        dev = abs(float(r_deg - off - sl.eangle(pr["sep"], EPS[pr["eps"]])))
     else:
         with localcontext() as c:
             c.prec = sl.PREC
@@ -132,14 +221,14 @@ def project(pr, var, err, r):
     return o, dev
 
 
-OKEYS = ("fn", "samewrap", "err", "fin", "rng", "zero", "on", "a", "blo", "bhi", "dn", "dd")
+OKEYS = ("fn", "samewrap", "err", "fin", "rng", "zero", "on", "a", "blo", "bhi", "dn", "dd", "tc", "uin", "sh")
 
 
 def eval_block(arg):
     """evaluate every variant x shape on one block of pairs.  Returns (records, perm_long): one trace
     record per pair whose observations are the distinct *projections* of everything that came back;
     members[k] lists the evaluations (variant, shapes, call) behind observation k."""
-    bno, bseed, pairs, variants = arg
+    bno, bseed, pairs, variants, idoff = arg
     rng = random.Random(bseed)
     n = len(pairs)
     perm_long = list(range(n))
@@ -157,11 +246,21 @@ def eval_block(arg):
     raw = [dict() for _ in pairs]                # per pair: (vi, err, hex) -> [first (shape, idxs, pos), set of shapes]
     near = [sep_group(pr) == "near180" for pr in pairs]
     gnear = {id(idxs): any(near[t] for t in idxs) for _, idxs in groups}
+    tin = {}                                     # (pair, variant) -> many-turn class and offset; absent = not decidable
     for vi, var in enumerate(variants):
-        C = np.array([pair_args(pr, var) for pr in pairs], dtype="f8")
+        rows = [pair_args(pr, var) for pr in pairs]
+        C = np.array(rows, dtype="f8")
+        for m, pr in enumerate(pairs):
+            ti = turn_info(pr, var, rows[m])
+            if ti is not None:
+                tin[(m, vi)] = ti
         for shape, idxs in groups:
+            if not any((m, vi) in tin for m in idxs) or (shape == "one_vs_n3" and (idxs[0], vi) not in tin):
+                continue
             A = tuple(float(x) for x in C[idxs[0]]) if shape == "scalar" else C[idxs]
             for pos, (m, (err, v)) in enumerate(zip(idxs, call(var, A, mixed=(shape == "one_vs_n3"), twod=(shape == "n2x3")))):
+                if (m, vi) not in tin:
+                    continue
                 # an exception belongs to the whole call: remember whether the call held a near-antipodal pair
                 key = (vi, err if v is not None or not gnear[id(idxs)] else err + "@near180", None if v is None else v.hex())
                 cl = raw[m].get(key)
@@ -176,7 +275,7 @@ def eval_block(arg):
             vi, err, hx = key
             (shape, idxs, pos), shapes = raw[m][key]
             err, _, incall = err.partition("@")
-            o, dev = project(pr, variants[vi], err, None if hx is None else float.fromhex(hx))
+            o, dev = project(pr, variants[vi], err, None if hx is None else float.fromhex(hx), tin[(m, vi)])
             pk = tuple(o.get(f) for f in OKEYS)
             ent = merged.setdefault(pk, (o, []))
             ent[1].append({"vi": vi, "shapes": sorted(shapes), "shape": shape, "idxs": idxs, "pos": pos, "ret": hx,
@@ -187,10 +286,136 @@ def eval_block(arg):
             obs.append(o)
             members[k] = mem
         nvar = len({key[0] for key in raw[m]})
-        out.append({"id": pr["id"], "c": pr["c"], "obs": obs, "members": members, "b": bno,
+        if not obs:
+            continue                              # no variant of this block is decidable for the pair
+        out.append({"id": pr["id"] + ID_STEP * idoff, "pid": pr["id"], "c": pr["c"], "obs": obs, "members": members, "b": bno,
                     "shape_dependent": len(raw[m]) - nvar,
                     "evals": sum(len(cl[1]) for cl in raw[m].values())})
     return out, perm_long
+
+
+# ---------------------------------------------------------------------------------
+# SCALE: large array calls that repeat a tile of lattice pairs (Sphere.tla 3a)
+ID_STEP = 1000000         # record ids: pair id (+ ID_STEP for the many-turn records); scale records from 2 * ID_STEP
+MAX_DISTINCT = 4          # distinct deviating values kept per tile position of one large call
+
+
+def _crc(a):
+    return zlib.crc32(memoryview(np.ascontiguousarray(a)).cast("B"))
+
+
+def call_big(var, cols, fixed):
+    """cols: four arrays (n,) of doubles; fixed: None or the pair of column numbers that hold ONE point,
+    which is then passed as two python floats -> (err, result (n,) float64 or None)"""
+    import esutil.coords as co
+    n = len(cols[0])
+    args = [float(c[0]) if fixed and k in fixed else c for k, c in enumerate(cols)]
+    before = [_crc(a) for a in args if isinstance(a, np.ndarray)]
+    try:
+        with np.errstate(all="ignore"):
+            res = co.sphdist(*args, units=[var[1], var[2]]) if var[0] == "sphdist" else co.gcirc(*args)
+        res = np.ascontiguousarray(np.asarray(res, dtype="f8").ravel())
+        err = "none" if res.size == n else "ShapeError"
+    except Exception as e:  # noqa
+        err, res = type(e).__name__, None
+    if [_crc(a) for a in args if isinstance(a, np.ndarray)] != before:
+        err = "ArgumentModified"
+    return err, (res if err == "none" else None)
+
+
+def scale_eval(var, n, rot, shape, Ct):
+    """Ct: (T,4) doubles of the tile.  Evaluates the call on the tile alone and the call on n pairs that
+    repeat the tile from offset rot (element k shows tile position (k + rot) % T).  Returns per tile
+    position the list of (source, err, hex value or None, count, first index): the distinct values the
+    large result holds at that position, compressed in O(n), and the value of the tile call."""
+    T = len(Ct)
+    fixed = None if shape == 1 else ((2, 3) if var[5] else (0, 1))       # the columns of the one point
+    if fixed and len({(float(a), float(b)) for a, b in Ct[:, list(fixed)]}) != 1:
+        raise MachineryError("one-point-against-array tile has more than one first point")
+    out = [[] for _ in range(T)]
+    err, res = call_big(var, [np.ascontiguousarray(Ct[:, k]) for k in range(4)], fixed)
+    for t in range(T):
+        out[t].append(("tile", err, None if res is None else float(res[t]).hex(), 0, t))
+    idx = (np.arange(n, dtype=np.int64) + rot) % T
+    counts = np.bincount(idx, minlength=T)
+    first = (np.arange(T, dtype=np.int64) - rot) % T           # first element that shows position t
+    err, res = call_big(var, [np.ascontiguousarray(Ct[idx, k]) for k in range(4)], fixed)
+    if res is None:
+        for t in range(T):
+            if counts[t]:
+                out[t].append(("big", err, None, int(counts[t]), int(first[t])))
+        return out
+    bits = res.view(np.uint64)
+    have = first < n
+    ref = np.zeros(T, dtype=np.uint64)
+    ref[have] = bits[first[have]]
+    km = np.nonzero(bits != ref[idx])[0]                       # elements that differ from the first of their position
+    extra = {}
+    if km.size:
+        key = np.stack([idx[km].astype(np.uint64), bits[km]])
+        u, ui, uc = np.unique(key, axis=1, return_index=True, return_counts=True)
+        for j in np.argsort(ui, kind="stable"):
+            extra.setdefault(int(u[0, j]), []).append((int(km[ui[j]]), int(uc[j])))
+    for t in range(T):
+        if not counts[t]:
+            continue
+        ex = extra.get(t, [])
+        if len(ex) > MAX_DISTINCT:                              # lump the rest with the last kept value
+            ex = ex[:MAX_DISTINCT - 1] + [(ex[MAX_DISTINCT - 1][0], sum(c for _, c in ex[MAX_DISTINCT - 1:]))]
+        out[t].append(("big", "none", float(res[first[t]]).hex(), int(counts[t]) - sum(c for _, c in ex), int(first[t])))
+        for k, c in ex:
+            out[t].append(("big", "none", float(res[k]).hex(), c, k))
+    return out
+
+
+def scale_tile(case, tiles, gpts):
+    """the tile of one exported large case as a list of concrete lattice pairs"""
+    tile = []
+    for i in case["firsts"]:
+        tl = tiles[i]
+        for j, sep in zip(tl["js"], tl["seps"]):
+            tile.append({"kind": "gc", "c": {"kind": "gc", "p": gpts[i - 1], "q": gpts[j - 1]}, "eps": case["e"], "sep": sep})
+    return tile
+
+
+def scale_var(case):
+    return (case["fn"], case["uin"], case["uout"], 0, 0, case["swap"], 0)
+
+
+def scale_record(rid, case, t, pr, var, outcomes):
+    """the trace record of tile position t of a large call"""
+    merged = {}
+    for src, err, hx, cnt, k in outcomes:
+        o, dev = project(pr, var, err, None if hx is None else float.fromhex(hx))
+        pk = tuple(o.get(f) for f in OKEYS)
+        ent = merged.setdefault(pk, (o, []))
+        ent[1].append({"src": src, "ret": hx, "cnt": cnt, "index": k, "dev": dev})
+    obs, members = [], {}
+    for k, (o, mem) in enumerate(merged.values(), 1):
+        o["k"] = k
+        o["cnt"] = sum(m["cnt"] for m in mem)
+        obs.append(o)
+        members[k] = mem
+    c = dict(pr["c"], kind="gcs", n=case["n"], T=case["T"], rot=case["rot"], t=t)
+    return {"id": rid, "c": c, "obs": obs, "members": members}
+
+
+def eval_scale(arg):
+    sno, case, tile = arg
+    var = scale_var(case)
+    Ct = np.array([pair_args(pr, var) for pr in tile], dtype="f8")
+    res = scale_eval(var, case["n"], case["rot"], case["shape"], Ct)
+    recs = []
+    for t, (pr, outs) in enumerate(zip(tile, res)):
+        r = scale_record(2 * ID_STEP + sno * 4096 + t, dict(case, T=len(tile)), t, pr, var, outs)
+        r.update(sno=sno, t=t, eps=pr["eps"], sep=pr["sep"],
+                 bitdiff=len({o[2] for o in outs if o[1] == "none"}) - 1 if any(o[1] == "none" for o in outs) else 0)
+        recs.append(r)
+    return recs, [[float(x).hex() for x in row] for row in Ct]
+
+
+def eval_work(item):
+    return eval_scale(item[1:4]) if item[0] == "scale" else eval_block(item[1:6])
 
 
 # ---------------------------------------------------------------------------------
@@ -201,7 +426,7 @@ def sep_group(pr):
         a, b = pr["sep"]
         if a == 0 and b == 0:
             return "zero"
-        return "near180" if math.cos(math.radians(a + b * float(sl.EPS[pr["eps"]]))) <= -0.995 else "small"
+        return "near180" if math.cos(math.radians(a + b * float(EPS[pr["eps"]]))) <= -0.995 else "small"
     if pr["dot"] == pr["den"]:
         return "zero"
     return "near180" if 1000 * pr["dot"] <= -995 * pr["den"] else "small"
@@ -243,49 +468,76 @@ def add_theta(pr):
 
 
 def describe(pr, var, mem):
-    return ("%s(units=%s,%s; +360*(%d,%d); %s; %s) returned %s for a true separation of %s%s" % (
-        var[0], var[1], var[2], var[3], var[4], "swapped" if var[5] else "p,q", "/".join(mem["shapes"]),
+    var = vnorm(var)
+    return ("%s(units=%s,%s; +360*(%d,%d); %s%s; %s) returned %s for a true separation of %s%s" % (
+        var[0], var[1], var[2], var[3], var[4], "swapped" if var[5] else "p,q", "; zeros as -0.0" if var[6] else "",
+        "/".join(mem["shapes"]),
         "an exception" if mem["ret"] is None else repr(float.fromhex(mem["ret"])) + (" rad" if var[2] == "rad" else " deg"),
-        ("%d%+d*%s deg" % (pr["sep"][0], pr["sep"][1], sl.EPS_NAMES[pr["eps"]])) if pr["kind"] == "gc"
+        ("%d%+d*%s deg" % (pr["sep"][0], pr["sep"][1], EPS_NAMES[pr["eps"]])) if pr["kind"] == "gc"
         else ("acos(%d/%d) = %.15g deg" % (pr["dot"], pr["den"], float(pr["theta"]))),
-        "" if mem["dev"] is None else " (off by %.3g deg)" % mem["dev"]))
+        "" if mem["dev"] is None else " (off by %.3g deg from the true angle of the double inputs)" % mem["dev"]))
 
 
-def judge(ctx, pid, recs, variants, blocks, what, cap=6):
+MACHINERY_CLAUSES = ("malformed_case", "bad_turn_class")
+
+
+def validate_all(ctx, jobs):
+    """the trace validations of one run side by side (each is its own TLC process): [(records, what)] -> [rejects]"""
+    from concurrent.futures import ThreadPoolExecutor
+    with ThreadPoolExecutor(len(jobs)) as ex:
+        futs = [ex.submit(tracecheck.validate, ctx, "SphereTrace.tla",
+                          [{"id": r["id"], "c": r["c"], "obs": r["obs"]} for r in recs], what=what) for recs, what in jobs]
+        return [f.result() for f in futs]
+
+
+def judge(ctx, pid, recs, blocks, rejects, cap=6):
     """TLC judges the records; rejected observations become violations with structural signatures:
-    <function>|<clause>|<shapes that fail: anyshape or a list>|<separation classes that fail: anysep or a list>"""
-    rejects = tracecheck.validate(ctx, "SphereTrace.tla",
-                                  [{"id": r["id"], "c": r["c"], "obs": r["obs"]} for r in recs], what=what)
+    <function>|<clause>|<shapes that fail: anyshape or a list>|<separation classes that fail: anysep or a list>
+    (+ |negzero when only the calls with -0.0 coordinates fail); the many-turn evaluations have the coarser
+    <function>|<clause>|manyturns-<input unit>"""
     byid = {r["id"]: r for r in recs}
-    fails = []                                    # (fn, clause, sepgroup, shape, rec id, k, member index)
+    fails = []                                    # (fn, turn label, clause, sepgroup, shape, nz, rec id, k, member index)
     for rid, failing in rejects.items():
-        r, pr = byid[rid], pid[rid]
+        r = byid[rid]
+        pr, variants = pid[r["pid"]], blocks[r["b"]][2]
         for cl, k in failing:
-            if cl == "malformed_case":
-                raise MachineryError("SphereTrace rejected the case itself as malformed: %s" % r["c"])
+            if cl in MACHINERY_CLAUSES:
+                raise MachineryError("SphereTrace rejected the record itself (%s): %s" % (cl, r["c"]))
             for mi, mem in enumerate(r["members"][k]):
+                var = variants[mem["vi"]]
+                tl = "manyturns-" + var[1] if is_turn(var) else ""
                 for shape in mem["shapes"]:     # the class of an exception is that of the whole call
-                    fails.append((variants[mem["vi"]][0], cl, mem["incall"] or sep_group(pr), shape, rid, k, mi))
-    groups_present = {sep_group(pid[r["id"]]) for r in recs}
-    shapes_of, seps_of = {}, {}
-    for fn, cl, sg, shape, rid, k, mi in fails:
-        shapes_of.setdefault((fn, cl, sg), set()).add(shape)
+                    fails.append((var[0], tl, cl, mem["incall"] or sep_group(pr), shape, var[6], rid, k, mi))
+    groups_present = {sep_group(pid[r["pid"]]) for r in recs}
+    shapes_of, seps_of, nz_of = {}, {}, {}
+    for fn, tl, cl, sg, shape, nz, rid, k, mi in fails:
+        shapes_of.setdefault((fn, tl, cl, sg), set()).add(shape)
     label = {key: ("anyshape" if v == set(SHAPES) else "+".join(sorted(v))) for key, v in shapes_of.items()}
-    for (fn, cl, sg), lab in label.items():
-        seps_of.setdefault((fn, cl, lab), set()).add(sg)
+    for (fn, tl, cl, sg), lab in label.items():
+        seps_of.setdefault((fn, tl, cl, lab), set()).add(sg)
     glabel = {key: ("anysep" if v == groups_present else "+".join(sorted(v))) for key, v in seps_of.items()}
+
+    def signature(fn, tl, cl, sg):
+        if tl:
+            return "%s|%s|%s" % (fn, cl, tl)
+        lab = label[(fn, tl, cl, sg)]
+        return "%s|%s|%s|%s" % (fn, cl, lab, glabel[(fn, tl, cl, lab)])
+    for fn, tl, cl, sg, shape, nz, rid, k, mi in fails:
+        nz_of.setdefault(signature(fn, tl, cl, sg), set()).add(nz)
     emitted, done = {}, set()
-    for fn, cl, sg, shape, rid, k, mi in sorted(fails):
-        lab = label[(fn, cl, sg)]
-        sig = "%s|%s|%s|%s" % (fn, cl, lab, glabel[(fn, cl, lab)])
+    for fn, tl, cl, sg, shape, nz, rid, k, mi in sorted(fails):
+        sig = signature(fn, tl, cl, sg)
+        if nz_of[sig] == {1}:
+            sig += "|negzero"
         if emitted.get(sig, 0) >= cap or (sig, rid, k) in done:
             continue
         emitted[sig] = emitted.get(sig, 0) + 1
         done.add((sig, rid, k))
-        r, pr = byid[rid], pid[rid]
+        r = byid[rid]
+        pr = pid[r["pid"]]
         mem = r["members"][k][mi]
+        bpairs, perm_long, variants = blocks[r["b"]]
         var = variants[mem["vi"]]
-        bpairs, perm_long = blocks[r["b"]]
         idxs = perm_long if mem["idxs"] is None else mem["idxs"]
         case = {"kind": pr["kind"], "c": pr["c"], "variant": list(var), "shape": mem["shape"], "index": mem["pos"],
                 "call": [[float(x).hex() for x in pair_args(bpairs[t], var)] for t in idxs],
@@ -298,27 +550,82 @@ def judge(ctx, pid, recs, variants, blocks, what, cap=6):
     return rejects, len(fails)
 
 
+def judge_scale(ctx, recs, cases, tiles_hex, rejects, cap=4):
+    """the records of the large calls; signatures <function>|<clause>|<bigarray / one_vs_bigarray, +tile when the
+    call on the tile alone fails too>|<separation classes>"""
+    byid = {r["id"]: r for r in recs}
+    fails = []
+    for rid, failing in rejects.items():
+        r = byid[rid]
+        case = cases[r["sno"]]
+        shp = "bigarray" if case["shape"] == 1 else "one_vs_bigarray"
+        pr = {"kind": "gc", "eps": r["eps"], "sep": r["sep"]}
+        for cl, k in failing:
+            if cl in MACHINERY_CLAUSES:
+                raise MachineryError("SphereTrace rejected the record itself (%s): %s" % (cl, r["c"]))
+            if cl == "scale_complete":
+                fails.append((case["fn"], cl, "any", shp, rid, 0, 0))
+                continue
+            for mi, mem in enumerate(r["members"][k]):
+                fails.append((case["fn"], cl, sep_group(pr), shp if mem["src"] == "big" else "tile", rid, k, mi))
+    src_of, seps_of = {}, {}
+    for fn, cl, sg, src, rid, k, mi in fails:
+        src_of.setdefault((fn, cl, sg), set()).add(src)
+    label = {key: "+".join(sorted(v)) for key, v in src_of.items()}
+    for (fn, cl, sg), lab in label.items():
+        seps_of.setdefault((fn, cl, lab), set()).add(sg)
+    emitted, done = {}, set()
+    for fn, cl, sg, src, rid, k, mi in sorted(fails):
+        lab = label[(fn, cl, sg)]
+        sig = "%s|%s|%s|%s" % (fn, cl, lab, "+".join(sorted(seps_of[(fn, cl, lab)])))
+        if emitted.get(sig, 0) >= cap or (sig, rid) in done or (src == "tile" and lab != "tile"):
+            continue
+        emitted[sig] = emitted.get(sig, 0) + 1
+        done.add((sig, rid))
+        r = byid[rid]
+        case = cases[r["sno"]]
+        mem = r["members"][k][mi] if k else {"src": "big", "ret": None, "cnt": 0, "index": 0, "dev": None}
+        rc = {"kind": "scale", "c": r["c"], "variant": list(scale_var(case)), "n": case["n"], "rot": case["rot"],
+              "shape": case["shape"], "tile": tiles_hex[r["sno"]], "t": r["t"], "eps": r["eps"], "sep": r["sep"],
+              "clause": cl, "sig": sig, "returned": mem["ret"], "index": mem["index"], "src": mem["src"]}
+        what_ = ("clause %s of SphereTrace.tla: %s(units=%s,%s%s) on %s of %d pairs (a tile of %d lattice pairs repeated from "
+                 "offset %d) returned %s at element %d (%d elements) for a true separation of %d%+d*%s deg%s" % (
+                     cl, case["fn"], case["uin"], case["uout"], "; swapped" if case["swap"] else "",
+                     "four arrays" if case["shape"] == 1 else "one point against arrays",
+                     case["n"] if mem["src"] == "big" else r["c"]["T"], r["c"]["T"], case["rot"],
+                     "an exception / a wrong size" if mem["ret"] is None else repr(float.fromhex(mem["ret"])),
+                     mem["index"], mem["cnt"], r["sep"][0], r["sep"][1], EPS_NAMES[r["eps"]],
+                     "" if mem["dev"] is None else " (off by %.3g deg)" % mem["dev"]))
+        ctx.violation(sig, what_, rc)
+    return rejects, len(fails)
+
+
 def run(ctx):
     sl.self_validate()
     B = BOUNDS[ctx.tier]
-    consts = dict(B, FixedAxis=True, DoExport=False)
-    # 1. the theorems the property relies on, on both bounded lattices; the branch mechanism refines its intent
-    ctx.tlc("SphereMC.tla", what="lattice theorems + branch model (exhaustive)",
-            cfg_text=cfg(constants=consts, invariants=["GCTheorems", "RSTheorems", "BranchRefines"]),
+    consts = dict(B, FixedAxis=True, FixedIndex=True, DoExport=False)
+    # 1. the theorems the property relies on, on both bounded lattices (incl. the scale laws and the many-turn
+    #    theorems); the branch and block mechanisms refine their intent; the designs cover (ASSUMEs)
+    ctx.tlc("SphereMC.tla", what="lattice theorems, scale laws, turn theorems, mechanisms (exhaustive)",
+            cfg_text=cfg(constants=consts, invariants=["GCTheorems", "RSTheorems", "BranchRefines", "ScaleLaw",
+                                                       "ScaleMechRefines"]),
             workers=16, require=["PickGC1", "PickGC2", "PickRS1", "PickRS2", "PickMask", "RunBranch"], timeout=3000)
-    # 1b. the pinned mask-on-the-wrong-axis mechanism must violate BranchRefines (non-vacuity)
-    small = dict(consts, GCA={0, 90}, BMax=0, MerLons={0}, PoleLons={0}, MaxD=1, NMaskMax=3, FixedAxis=False)
-    r1b = ctx.tlc("SphereMC.tla", what="self-test: mask on the coordinate axis violates BranchRefines",
-                  cfg_text=cfg(constants=small, invariants=["BranchRefines"]), workers=1, allow_violation=True,
-                  coverage=False)
-    if "BranchRefines" not in r1b.violated:
-        raise MachineryError("self-test failed: BranchRefines not violated by the deviating mechanism")
-    # 2. export the rows of exact separations (spec -> code)
-    r2 = ctx.tlc("SphereMC.tla", what="export lattice rows",
+    # 1b. the pinned mask-on-the-wrong-axis mechanism must violate BranchRefines, the block-relative write-back
+    #     must violate ScaleMechRefines (non-vacuity)
+    small = dict(consts, GCA={0, 90, 180}, BMax=1, MerLons={0}, PoleLons={0}, MaxD=1, NMaskMax=3, FixedAxis=False,
+                 FixedIndex=False)
+    r1b = ctx.tlc("SphereMC.tla", what="self-test: deviating branch / block mechanisms violate their refinement",
+                  cfg_text=cfg(constants=small, invariants=["ScaleMechRefines", "BranchRefines"]), workers=1,   # TLC reports the first violated invariant of a state
+                  allow_violation=True, coverage=False, continue_=True)
+    for inv in ("BranchRefines", "ScaleMechRefines"):
+        if inv not in r1b.violated:
+            raise MachineryError("self-test failed: %s not violated by the deviating mechanism" % inv)
+    # 2. export the rows of exact separations, the tiles, the large cases and the turn rows (spec -> code)
+    r2 = ctx.tlc("SphereMC.tla", what="export lattice rows, tiles, scale cases, turn rows",
                  cfg_text=cfg(constants=dict(consts, DoExport=True), next_="NextExport", constraints=["Export"]),
                  workers=1, coverage=False, timeout=3000)
     exp = r2.records
-    for tag in ("GCPTS", "RSPTS", "GCROW", "RSROW"):
+    for tag in ("GCPTS", "RSPTS", "GCROW", "RSROW", "TILE", "SCALE", "TURNROWS"):
         if not exp.get(tag):
             raise MachineryError("nothing exported for %s" % tag)
     pairs, ngc = build_pairs(exp, ctx.quick)
@@ -326,44 +633,92 @@ def run(ctx):
         raise MachineryError("too few pairs exported (%d gc, %d rs)" % (ngc, len(pairs) - ngc))
     pairs = pmap(add_theta, pairs)
     pid = {p["id"]: p for p in pairs}
-    ctx.log("%d great-circle cases (abstract pair x eps), %d rational-sphere pairs" % (ngc, len(pairs) - ngc))
-    # 3. evaluate: every variant on the great-circle lattice; on the sphere the base set + three wrapped (quick) / all
+    gpts = exp["GCPTS"][0]["pts"]
+    tiles = {t["i"]: t for t in exp["TILE"]}
+    scases = exp["SCALE"][0]["cases"]
+    v_turn = [(r["fn"], r["uin"], r["uout"], r["k1"], r["k2"], r["swap"], r["nz"]) for r in exp["TURNROWS"][0]["rows"]]
+    if len(tiles) != 3 or len(scases) < 12 or len(v_turn) < 20:
+        raise MachineryError("scale / turn design not exported as expected (%d tiles, %d cases, %d rows)"
+                             % (len(tiles), len(scases), len(v_turn)))
+    v_turn = [v for v in v_turn if is_turn(v)]      # rows with |k| <= 1 are what the ordinary variants already do
+    ctx.log("%d great-circle cases (abstract pair x eps), %d rational-sphere pairs, %d large cases, %d many-turn rows"
+            % (ngc, len(pairs) - ngc, len(scases), len(v_turn)))
+    # 3. evaluate: every variant on the great-circle lattice; on the sphere the base set + three wrapped (quick) / all;
+    #    the many-turn rows spread over blocks of the great-circle cases; the large cases
     v_gc = V_BASE + V_MORE
     v_rs = V_BASE + (V_MORE if not ctx.quick else [V_MORE[0], V_MORE[3], V_MORE[7]])
     rng = random.Random(ctx.seed)
-    work, blocks = [], []
-    for vs, sub in ((v_gc, pairs[:ngc]), (v_rs, pairs[ngc:])):
+    work = []
+    stile = [scale_tile(c, tiles, gpts) for c in scases]
+    if max(len(t) for t in stile) >= 4096:
+        raise MachineryError("tile too long for the record numbering")
+    for sno in sorted(range(len(scases)), key=lambda k: -scases[k]["n"]):       # longest jobs first
+        work.append(("scale", sno, scases[sno], stile[sno]))
+    nblock = 0
+    for tag, sub in (("gc", pairs[:ngc]), ("rs", pairs[ngc:]), ("turn", pairs[:ngc])):
         order = list(range(len(sub)))
         rng.shuffle(order)                # mix the separation classes inside the arrays (seeded)
         nb = max(1, round(len(sub) / BLOCK), min(64, len(sub) // 48))     # >= 64 blocks keeps the pool busy
+        R = TURN_ROWS_PER_BLOCK[ctx.tier]
+        if tag == "turn" and nb * R < len(v_turn):
+            raise MachineryError("too few blocks (%d x %d) for the %d many-turn rows" % (nb, R, len(v_turn)))
+        toff = rng.randrange(len(v_turn))
         for b in range(nb):
-            work.append((len(work), ctx.seed * 7919 + len(work), [sub[t] for t in order[b::nb]], vs))
-    res = pmap(eval_block, work, chunk=1)
-    gc_recs, rs_recs = [], []
-    for w, (out, perm_long) in zip(work, res):
-        blocks.append((w[2], perm_long))
-        (gc_recs if w[3] is v_gc else rs_recs).extend(out)
-    gc_recs.sort(key=lambda r: r["id"])
-    rs_recs.sort(key=lambda r: r["id"])
+            vs = {"gc": v_gc, "rs": v_rs}.get(tag) or [v_turn[(toff + b * R + t) % len(v_turn)] for t in range(R)]
+            work.append(("block", nblock, ctx.seed * 7919 + nblock, [sub[t] for t in order[b::nb]], vs,
+                         1 if tag == "turn" else 0, tag))
+            nblock += 1
+    res = pmap(eval_work, work, chunk=1)
+    gc_recs, rs_recs, turn_recs, sc_recs, blocks, tiles_hex = [], [], [], [], {}, {}
+    for w, (out, aux) in zip(work, res):
+        if w[0] == "scale":
+            sc_recs.extend(out)
+            tiles_hex[w[1]] = aux
+        else:
+            blocks[w[1]] = (w[3], aux, w[4])
+            {"gc": gc_recs, "rs": rs_recs, "turn": turn_recs}[w[6]].extend(out)
+    for rs in (gc_recs, rs_recs, turn_recs, sc_recs):
+        rs.sort(key=lambda r: r["id"])
     recs = gc_recs + rs_recs
     for r in recs:
-        ctx.count({"c": r["c"], "eps": pid[r["id"]].get("eps")})
+        ctx.count({"c": r["c"], "eps": pid[r["pid"]].get("eps")})
     ctx.evaluations += sum(r["evals"] for r in recs) - len(recs)
-    for r in recs[:: max(1, len(recs) // 4)][:4]:
-        ctx.sample({"case": r["c"], "eps": pid[r["id"]].get("eps"), "observations": r["obs"]})
+    for r in turn_recs:
+        ctx.count({"c": r["c"], "eps": pid[r["pid"]].get("eps"), "turns": sorted({tuple(blocks[r["b"]][2][m["vi"]][3:5])
+                                                                                 for ms in r["members"].values() for m in ms})},
+                  n=r["evals"])
+    for r in sc_recs:
+        ctx.count({"c": r["c"], "eps": r["eps"]}, n=sum(o["cnt"] for o in r["obs"]) + 1)
+    for r in recs[:: max(1, len(recs) // 4)][:4] + turn_recs[:1] + sc_recs[:1]:
+        ctx.sample({"case": r["c"], "eps": r.get("eps", pid.get(r.get("pid"), {}).get("eps")), "observations": r["obs"]})
+    seen_rows = {tuple(blocks[r["b"]][2][m["vi"]]) for r in turn_recs for ms in r["members"].values() for m in ms}
+    if len(seen_rows) < len(v_turn):
+        raise MachineryError("%d of the %d many-turn rows were never evaluated" % (len(v_turn) - len(seen_rows), len(v_turn)))
+    classes = {o["tc"] for r in turn_recs for o in r["obs"]}
+    if not {"exact", "equator", "pole", "samelon"} <= classes:
+        raise MachineryError("many-turn classes evaluated: %s" % sorted(classes))
     # 4. TLC judges (code -> spec)
-    rej1, nf1 = judge(ctx, pid, gc_recs, v_gc, blocks, "judge great-circle lattice evaluations (SphereTrace)")
-    rej2, nf2 = judge(ctx, pid, rs_recs, v_rs, blocks, "judge rational-sphere evaluations (SphereTrace)")
+    rj = validate_all(ctx, [(gc_recs, "judge great-circle lattice evaluations (SphereTrace)"),
+                            (rs_recs, "judge rational-sphere evaluations (SphereTrace)"),
+                            (turn_recs, "judge many-turn evaluations (SphereTrace)"),
+                            (sc_recs, "judge large array calls per tile position (SphereTrace)")])
+    rej1, nf1 = judge(ctx, pid, gc_recs, blocks, rj[0])
+    rej2, nf2 = judge(ctx, pid, rs_recs, blocks, rj[1])
+    rej3, nf3 = judge(ctx, pid, turn_recs, blocks, rj[2])
+    rej4, nf4 = judge_scale(ctx, sc_recs, scases, tiles_hex, rj[3])
+
     # 5. binding self-test: a corrupted observation must be rejected, its untouched twin accepted
-    def first_good(rs, rej):
+    def first_good(rs, rej, want=lambda r, o: True):
         for r in rs:
             if r["id"] not in rej:
                 for o in r["obs"]:
-                    if o["on"]:
-                        return {"c": r["c"], "o": o, "real": True}
+                    if o["on"] and want(r, o):
+                        return {"c": r["c"], "o": o, "real": True, "obs": r["obs"]}
         o = dict(rs[0]["obs"][0], err="none", fin=True, rng=True, on=True, zero=False)
-        return {"c": rs[0]["c"], "o": o, "real": False}       # nothing accepted on this tree: synthetic twin
-    probe, good = [], [first_good(gc_recs, rej1), first_good(rs_recs, rej2)]
+        return {"c": rs[0]["c"], "o": o, "real": False, "obs": [o]}     # nothing accepted on this tree: synthetic twin
+    probe, good = [], [first_good(gc_recs, rej1), first_good(rs_recs, rej2),
+                       first_good(turn_recs, rej3, lambda r, o: o["sh"]),
+                       first_good(sc_recs, rej4, lambda r, o: len(r["obs"]) == 1)]
     for n, g in enumerate(good):
         bad = dict(g["o"])
         if "a" in bad and bad.get("dd") is None:
@@ -371,42 +726,69 @@ def run(ctx):
         else:
             bad["dn"], bad["dd"] = bad["dn"] + 1, max(bad["dd"], 1)
         probe.append({"id": 2 * n + 1, "c": g["c"], "obs": [bad]})
-        probe.append({"id": 2 * n + 2, "c": g["c"], "obs": [g["o"]]})
+        probe.append({"id": 2 * n + 2, "c": g["c"], "obs": g["obs"] if n == 3 else [g["o"]]})
+    # the claimed many-turn class is checked against the case; the element counts of a large call must add up
+    tg, sg = good[2], good[3]
+    on_eq = list(tg["c"]["p"]["lat"]) == [0, 0] and list(tg["c"]["q"]["lat"]) == [0, 0]
+    probe.append({"id": 9, "c": tg["c"], "obs": [dict(tg["o"], tc="pole" if on_eq else "equator", sh=False)]})
+    probe.append({"id": 10, "c": sg["c"], "obs": [dict(o, cnt=o["cnt"] + 1) for o in sg["obs"]]})
     saved = ctx.traces
-    rej = tracecheck.validate(ctx, "SphereTrace.tla", probe, what="self-test: corrupted record rejected", workers=1)
+    rej = tracecheck.validate(ctx, "SphereTrace.tla", probe, what="self-test: corrupted records rejected", workers=1)
     ctx.traces = saved
-    if not (1 in rej and 3 in rej) or any(g["real"] and 2 * n + 2 in rej for n, g in enumerate(good)):
+    clauses = {i: [c for c, _ in v] for i, v in rej.items()}
+    if (not all(i in rej for i in (1, 3, 5, 7)) or any(g["real"] and 2 * n + 2 in rej for n, g in enumerate(good))
+            or "bad_turn_class" not in clauses.get(9, []) or "scale_complete" not in clauses.get(10, [])):
         raise MachineryError("binding self-test failed: %s" % rej)
     shape_dep = sum(r["shape_dependent"] for r in recs)
     ctx.rule = ("every unordered pair (incl. p=q) of the %d great-circle-lattice points (positions %s deg x eps multiples "
                 "-%d..%d on the equator and the meridian circles %s, poles also at longitudes %s) that lie on a common "
-                "lattice circle, x eps in {1e-12,1e-9,1e-6,1e-3} deg%s; every unordered pair of the %d rational-sphere points "
-                "with denominator <= %d (all exported from SphereMC.tla); each evaluated by sphdist (4 unit combinations), "
-                "gcirc, both argument orders, +-360 on the longitudes, as scalar / length-1 / length-3 / length-~%d arrays; "
-                "a case is distinct by (abstract pair, eps) and non-trivial always" %
-                (len(exp["GCPTS"][0]["pts"]), sorted(B["GCA"]), B["BMax"], B["BMax"], sorted(B["MerLons"]),
-                 sorted(B["PoleLons"]), " (quick: two of the four per pair, alternating)" if ctx.quick else "",
-                 len(exp["RSPTS"][0]["pts"]), B["MaxD"], BLOCK))
+                "lattice circle, x eps in {1e-12,1e-9,1e-6,1e-3,2^-44} deg%s; every unordered pair of the %d rational-sphere "
+                "points with denominator <= %d (all exported from SphereMC.tla); each evaluated by sphdist (4 unit combinations), "
+                "gcirc, both argument orders, +-360 on the longitudes, zeros as -0.0, as scalar / length-1 / length-3 / "
+                "length-~%d arrays; many turns: the %d rows (function/units x k1,k2 in +-%s x swap x -0.0) of the TLC-checked "
+                "design, %d per block of great-circle cases, judged on the pairs whose separation is an exactly known function "
+                "of the displacement of the double inputs; scale: %d large calls (lengths %s x 3 rotations of the class-cyclic "
+                "tile x four arrays / one point against arrays x function/units%s), every element judged through its tile "
+                "position; a case is distinct by (abstract pair, eps[, turn counts / large-call position]) and non-trivial always" %
+                (len(gpts), sorted(B["GCA"]), B["BMax"], B["BMax"], sorted(B["MerLons"]),
+                 sorted(B["PoleLons"]), " (quick: two of the five per pair, rotating)" if ctx.quick else "",
+                 len(exp["RSPTS"][0]["pts"]), B["MaxD"], BLOCK, len(v_turn), sorted(B["TurnMags"]),
+                 TURN_ROWS_PER_BLOCK[ctx.tier], len(scases), sorted(B["ScaleNs"]), " by a covering design" if ctx.quick else ""))
     ctx.exhaustive = True
     ctx.note(bounds={k: sorted(v) if isinstance(v, set) else v for k, v in B.items()}, gc_cases=ngc,
-             rs_pairs=len(pairs) - ngc, variants_gc=len(v_gc), variants_rs=len(v_rs), rejected_records=len(rej1) + len(rej2),
-             failing_evaluations=nf1 + nf2, informational_shape_dependent_results=shape_dep,
+             rs_pairs=len(pairs) - ngc, variants_gc=len(v_gc), variants_rs=len(v_rs), many_turn_rows=len(v_turn),
+             many_turn_records=len(turn_recs), large_calls=len(scases), large_call_records=len(sc_recs),
+             large_call_elements=sum(c["n"] for c in scases),
+             rejected_records=len(rej1) + len(rej2) + len(rej3) + len(rej4),
+             failing_evaluations=nf1 + nf2 + nf3 + nf4, informational_shape_dependent_results=shape_dep,
+             informational_large_call_positions_with_bit_differences=sum(1 for r in sc_recs if r["bitdiff"]),
              tolerances_deg={"sphdist": "1e-11", "gcirc": "2e-6", "input_rounding_allowance": "2e-13"})
     ctx.trusted_base += ["fractions.Fraction / decimal (60 digits) arithmetic of vh.spherelat (self-validated per run: pi, "
                          "sin/cos series, exact_angle_deg anchors)",
-                         "float(Fraction) correctly rounded; longdouble atan2 for the rational-sphere inputs"]
+                         "float(Fraction) correctly rounded; longdouble atan2 for the rational-sphere inputs",
+                         "many turns: the exact angle of a double input (Fraction(x), or Fraction(x)*180/pi with a 70-digit pi) "
+                         "and the circular difference of two such angles on the equator"]
     ctx.assumptions = ["lattice inputs are rounded once to doubles; the projection accepts 2e-13 deg beyond the stated "
-                       "tolerance for that rounding",
+                       "tolerance for that rounding (at most one turn added); with more turns the tolerance applies to the "
+                       "exact angle of the actual double inputs, and only pairs are judged whose separation is an exactly "
+                       "known function of the displaced longitudes (no displacement / both on the equator / a pole / the "
+                       "same longitude double) - SphereTrace re-checks the class, Sphere.tla 3b gives the theorems",
                        "symmetric / unchanged by +360 / same for scalar and array are read at the function's stated accuracy "
                        "(each argument order, wrap and shape must itself be accepted; the lattice theorems GThmSymmetric, "
                        "GThmWrap make the expected value independent of them); only 'exactly zero for identical inputs' is "
                        "exact; bit-level shape dependence is reported as a note, not judged",
+                       "a large call is decided through the law 'elementwise = commutes with repetition of a tile' "
+                       "(GThmCycle / GThmBroadcast / GThmConcat, checked by TLC at small lengths): every distinct value "
+                       "at every tile position is judged by the exact lattice value of that position, and the call on the "
+                       "tile alone likewise",
                        "accuracy at generic doubles off both lattices is not decided (no transcendental oracle in TLA+)"]
 
 
 def replay(ctx, case):
     sl.self_validate()
-    var = tuple(case["variant"])
+    var = vnorm(case["variant"])
+    if case["kind"] == "scale":
+        return replay_scale(ctx, case, var)
     C = np.array([[float.fromhex(x) for x in row] for row in case["call"]], dtype="f8")
     A = tuple(float(x) for x in C[0]) if case["shape"] == "scalar" else C
     err, v = call(var, A, mixed=(case["shape"] == "one_vs_n3"), twod=(case["shape"] == "n2x3"))[case["index"]]
@@ -416,10 +798,28 @@ def replay(ctx, case):
     else:
         pr.update(dot=case["dot"], den=case["den"], P=tuple(case["P"]), Q=tuple(case["Q"]))
         add_theta(pr)
-    o, dev = project(pr, var, err, v)
+    tinfo = turn_info(pr, var, tuple(float(x) for x in C[case["index"]]))
+    if tinfo is None:
+        raise MachineryError("replay: the recorded evaluation is not decidable")
+    o, dev = project(pr, var, err, v, tinfo)
     o["k"] = 1
     print("replay observed: err=%s value=%r projection=%s deviation=%s" % (err, v, o, dev))
     rej = tracecheck.validate(ctx, "SphereTrace.tla", [{"id": 1, "c": case["c"], "obs": [o]}], what="replay", workers=1)
     for cl, k in rej.get(1, []):
         sig = case["sig"] if cl == case.get("clause") else "%s|%s|%s|replay" % (var[0], cl, case["shape"])
         ctx.violation(sig, "clause %s of SphereTrace.tla on replay: returned %r (%s)" % (cl, v, err), case)
+
+
+def replay_scale(ctx, case, var):
+    """re-run the large call and the call on the tile, judge the recorded tile position again"""
+    Ct = np.array([[float.fromhex(x) for x in row] for row in case["tile"]], dtype="f8")
+    t = case["t"]
+    outs = scale_eval(var, case["n"], case["rot"], case["shape"], Ct)[t]
+    pr = {"kind": "gc", "c": dict(case["c"], kind="gc"), "eps": case["eps"], "sep": case["sep"]}
+    rec = scale_record(1, {"n": case["n"], "T": len(Ct), "rot": case["rot"]}, t, pr, var, outs)
+    print("replay observed at tile position %d: %s" % (t, [(m["src"], m["ret"], m["cnt"], m["index"], m["dev"])
+                                                        for ms in rec["members"].values() for m in ms]))
+    rej = tracecheck.validate(ctx, "SphereTrace.tla", [{"id": 1, "c": rec["c"], "obs": rec["obs"]}], what="replay", workers=1)
+    for cl in sorted({cl for cl, k in rej.get(1, [])}):
+        sig = case["sig"] if cl == case.get("clause") else "%s|%s|bigarray|replay" % (var[0], cl)
+        ctx.violation(sig, "clause %s of SphereTrace.tla on replay of a large call" % cl, case)
